@@ -8,7 +8,7 @@
 (* the replay: it is recorded in `vBad` with a cause tag, the state is      *)
 (* re-synchronised from the logged outcome and validation goes on.         *)
 (***************************************************************************)
-EXTENDS Find, Format, TzString, Json, IOUtils, TLC
+EXTENDS Find, Format, TzString, TzFile, Json, IOUtils, TLC
 
 Rec == ndJsonDeserialize(IOEnv.TRACE)
 NRec == Len(Rec)
@@ -147,8 +147,18 @@ VTzString(e) ==
             ELSE IF Has(e.r, "err") THEN {"C09-sentence-refused"}
             ELSE IF e.r.ok = [rule |-> p.rule, ntypes |-> IF via = "settings" /\ p.rule.k = "alt" THEN 2 ELSE 1, ntr |-> 0] THEN {} ELSE {"C09-wrong-rule"}
 
+\* ---- C08 ----
+VTzif(e) ==
+  IF Has(e.r, "panic") THEN {"panic"} ELSE IF Has(e.r, "arg") THEN {"generator-error"}
+  ELSE LET dd == Decode(e.a.bytes) IN
+       IF Has(dd, "unspecified") THEN {}
+       ELSE IF ~dd.ok THEN (IF Has(e.r, "err") THEN {} ELSE {"C08-malformed-file-accepted"})
+       ELSE IF Has(e.r, "err") THEN (IF Has(dd, "open") THEN {} ELSE {"C08-well-formed-file-refused"})
+       ELSE IF e.r.ok = dd.zone THEN {} ELSE {"C08-decoded-zone-differs"}
+
 Verdict(e) ==
   CASE e.op = "gmtime" -> VGmtime(e)
+    [] e.op = "tzif" -> VTzif(e)
     [] e.op = "tzstring" -> VTzString(e)
     [] e.op = "render" -> VRender(e)
     [] e.op = "rendert" -> VRenderT(e)
@@ -175,6 +185,11 @@ Step(e) ==
      /\ vBad' = vBad \cup {<<vL, t>> : t \in tags}
      /\ vZone' = IF accepted THEN z ELSE UtcZone            \* re-synchronised from the logged outcome
      /\ vInfo' = vInfo \cup {<<vL, t>> : t \in ZoneInfo(z)}
+     /\ vBuf' = EmptyBuf
+  ELSE IF e.op = "tzif" THEN
+     /\ vBad' = vBad \cup {<<vL, t>> : t \in Verdict(e)}
+     /\ vZone' = IF Has(e.r, "ok") THEN MkZone(e.r.ok) ELSE UtcZone     \* the zone as decoded by the crate (judged by VTzif)
+     /\ vInfo' = vInfo \cup (IF Has(e.r, "ok") THEN {<<vL, t>> : t \in ZoneInfo(MkZone(e.r.ok))} ELSE {})
      /\ vBuf' = EmptyBuf
   ELSE
      /\ vBad' = vBad \cup {<<vL, t>> : t \in Verdict(e)}
